@@ -4,4 +4,5 @@ CONSTANTS
   MaxLines = 0
   EmitMod = 1
   Mode = "judge"
+  WithErr = FALSE
 INVARIANTS EmitJudge
